@@ -94,10 +94,11 @@ Definition handle_node (s : mst) (i : nat) : option (nat * node) :=
   | Some h => match get_node s (href h) with Some n => Some (href h, n) | None => None end
   | None => None
   end.
+(* a handle on a regular file — or a closed handle, which refuses everything anyway *)
 Definition file_handle_ok (s : mst) (i : nat) : bool :=
   match nth_error (mhandles s) i with
   | None => true
-  | Some h => match get_node s (href h) with Some n => negb (ndir n) | None => false end
+  | Some h => match get_node s (href h) with Some n => negb (ndir n) || hclosed h | None => false end
   end.
 Definition dir_handle_ok (s : mst) (i : nat) : bool :=
   match nth_error (mhandles s) i with
